@@ -131,19 +131,38 @@ func (s *sharedEntryAttributes) toXmlInternal(parent *etree.Element, onlyNewOrUp
 			return true, nil
 		case s.GetSchema().GetContainer().IsPresence && s.containsOnlyDefaults():
 			// process presence cotnainers with no childs
-			if onlyNewOrUpdated {
-				// presence containers have leafvariantes with typedValue_Empty, so check that
-				if s.leafVariants.shouldDelete() {
-					return false, nil
-				}
-				le := s.leafVariants.GetHighestPrecedence(false, false)
-				if le == nil || (onlyNewOrUpdated && !(le.IsNew || le.IsUpdated)) {
-					return false, nil
-				}
-			}
-			newElem := parent.CreateElement(s.PathName())
+			newElem := etree.NewElement(s.PathName())
 			// process the honorNamespace instruction
 			xmlAddNamespaceConditional(s, s.parent, newElem, honorNamespace)
+			if onlyNewOrUpdated {
+				// a child that gives up its value in favour of the default still holds that value on the
+				// device: the delete has to be part of the change, like it is in the proto deletes
+				childDeleted := false
+				keys := s.childs.GetKeys()
+				slices.Sort(keys)
+				for _, k := range keys {
+					child, exists := s.childs.GetEntry(k)
+					if !exists || !child.shouldDelete() {
+						continue
+					}
+					doAdd, err := child.toXmlInternal(newElem, onlyNewOrUpdated, honorNamespace, operationWithNamespace, useOperationRemove)
+					if err != nil {
+						return false, err
+					}
+					childDeleted = childDeleted || doAdd
+				}
+				if !childDeleted {
+					// presence containers have leafvariantes with typedValue_Empty, so check that
+					if s.leafVariants.shouldDelete() {
+						return false, nil
+					}
+					le := s.leafVariants.GetHighestPrecedence(false, false)
+					if le == nil || !(le.IsNew || le.IsUpdated) {
+						return false, nil
+					}
+				}
+			}
+			parent.AddChild(newElem)
 			return true, nil
 
 		default:
